@@ -243,7 +243,8 @@ class Checker:
             if full:
                 dcfgs = PRIMARY + SECONDARY
                 scfgs = dcfgs if thorough else [PRIMARY[k % 2]] + [SECONDARY[(k + d) % nS] for d in (0, 3, 7)]
-                pcfgs = PIXCFG if thorough else [PIXCFG[k % nP]] + ([PIXCFG[(k + 4) % nP]] if k0 % 2 else [])
+                pcfgs = (PIXCFG if self.ref.n <= 3 else [PIXCFG[(k + d) % nP] for d in range(5)]) if thorough else \
+                    [PIXCFG[k % nP]] + ([PIXCFG[(k + 4) % nP]] if k0 % 2 else [])
             else:
                 dcfgs = PRIMARY + [SECONDARY[k % nS]]
                 scfgs = dcfgs if thorough else [PRIMARY[k % 2], SECONDARY[(k + 5) % nS]]
@@ -351,7 +352,13 @@ class Checker:
                 try:
                     if res.exit_code != 0:
                         raise RuntimeError(f"exit code {res.exit_code}: {res.output[-300:]}")
-                    df = pd.read_csv(io.StringIO(res.output), sep="\t")
+                    if res.output.strip() == "":
+                        # no record selected: dump prints nothing at all (not even the -H header); that is "no rows" here,
+                        # whether the header should appear is not part of C12
+                        df = pd.DataFrame(columns=["bin1_id", "bin2_id", "chrom1", "start1", "end1", "chrom2", "start2", "end2",
+                                                   "count", "balanced"])
+                    else:
+                        df = pd.read_csv(io.StringIO(res.output), sep="\t")
                     if "--join" in var:
                         lut = {(ref.chrom[t], int(ref.start[t]), int(ref.end[t])): t for t in range(ref.n)}
                         g1 = [lut[t] for t in zip(df["chrom1"].astype(str), df["start1"].astype(int), df["end1"].astype(int))]
@@ -393,9 +400,10 @@ def main():
         sweep_tables = ["fixed10-short-last"]
         full_tables = ["one-bin-chroms"]
         mats = ["dense", "sparse-empty-row"]
-    per_window = ("dense+sparse with ALL 12 (column, divisive_weights in {None,True,False}) settings and pixel output with ALL 9 "
-                  "(column, convention, join) settings on the `full` coolers; elsewhere dense+sparse with balance in {True,'KR'} + 1 rotating "
-                  "setting and 1 rotating pixel setting"
+    per_window = ("`full` coolers: dense+sparse with ALL 12 (column, divisive_weights in {None,True,False}) settings and pixel output with ALL 9 "
+                  "(column, convention, join) settings (5 rotating of the 9 on the 5-bin table); elsewhere dense with balance in {True,'KR'} + 1 rotating setting, sparse with 2 and pixel "
+                  "output with 1 rotating setting (every window on the symmetric dense-matrix cooler, every 2nd on the symmetric sparse-matrix "
+                  "one, every 3rd in square mode)"
                   if B.thorough else
                   "`full` coolers: dense with ALL 12 (column, divisive_weights in {None,True,False}) settings, sparse with 4 and pixel output "
                   "with 1-2 rotating settings; elsewhere dense with balance in {True,'KR'} + 1 rotating setting, sparse with 2 and pixel output "
@@ -403,11 +411,11 @@ def main():
                   "square one, every 3rd on the sparse-matrix cooler)")
     B.bound = (
         "ALL windows (i0<=i1, j0<=j1) in [0,n]^4 of coolers with 5 weight columns (weight, KR, VC, VC_SQRT, w2; NaN in 0-2 bins each): "
-        f"tables {sweep_tables} (n<=6 bins) x matrices {mats} x symmetric-upper/square, `full` = tables {full_tables} with the dense matrix; "
+        f"tables {sweep_tables} (n<=6 bins) x matrices {mats} x symmetric-upper/square, `full` = tables {full_tables} with the dense matrix (5-bin table: symmetric-upper only); "
         f"per window: {per_window}; "
         "missing column (unknown name; balance=True/'weight' on a cooler without 'weight') x 3 forms; "
         "fetch(region[,region2]) for whole/aligned/unaligned non-empty ranges; `cooler dump -b` x {plain, --join, -k 1/2/3, -f} x -r/-r2 ranges"
-        + ("; PLUS seeded sampling: 10 random 7-9 bin coolers with random weights/NaN masks, 250 random windows each" if B.thorough else ""))
+        + ("; PLUS seeded sampling: 8 random 7-9 bin coolers with random weights/NaN masks, 200 random windows each" if B.thorough else ""))
     B.rule = ("case = (table, matrix, storage mode, chunksize, window, balance, divisive_weights, output form[, join / fetch args / CLI args]); "
               "non-trivial when the window holds a stored value or a masked bin (dense), a stored value (sparse), a stored record (pixels/dump); "
               "distinct by case")
@@ -431,6 +439,8 @@ def main():
     for tname in full_tables:
         for ck, bins, A, symm, wc in coolers_for(tname, ["dense"]):
             n = ck.ref.n
+            if n > 3 and not symm:
+                continue      # thorough budget: the 5-bin table gets all settings in symmetric-upper mode only
             ck.sweep(list(all_windows(n)), full=True, thorough=B.thorough)
             ck.missing(list(all_windows(n)), "nope", "unknown-name")
             ck.fetches()
@@ -439,16 +449,18 @@ def main():
     for tname in sweep_tables:
         for ck, bins, A, symm, wc in coolers_for(tname, mats):
             n = ck.ref.n
-            if tname in full_tables and ck.desc["matrix"] == "dense":
-                continue
-            stride = 1 if (B.thorough or (ck.desc["matrix"] == "dense" and symm)) else (2 if ck.desc["matrix"] == "dense" else 3)
-            ck.sweep(list(all_windows(n)), full=False, pixel_stride=stride, thorough=B.thorough)
+            if tname in full_tables and ck.desc["matrix"] == "dense" and (symm or n <= 3):
+                continue      # already swept with all settings in step 1
+            if B.thorough:
+                stride = (1 if ck.desc["matrix"] == "dense" else 2) if symm else 3
+            else:
+                stride = 1 if (ck.desc["matrix"] == "dense" and symm) else (2 if ck.desc["matrix"] == "dense" else 3)
+            ck.sweep(list(all_windows(n)), full=False, pixel_stride=stride)
             wins = list(all_windows(n))
             ck.missing(wins[:: max(1, len(wins) // 12)], "nope", "unknown-name")
             ck.missing(wins[3:: max(1, len(wins) // 5)], "Weight", "wrong-case-name")
-            ck.fetches(limit=None if B.thorough else 3)
-            if ck.desc["matrix"] == "dense" or B.thorough:
-                ck.dump(runner, cli, limit=None if B.thorough else 4)
+            ck.fetches(limit=3)
+            ck.dump(runner, cli, limit=4 if ck.desc["matrix"] == "dense" else (5 if B.thorough else 9))
     # 3. cooler without a column named 'weight'
     for tname in (sweep_tables if B.thorough else ["one-bin-chroms", "fixed10-short-last"]):
         bins = tabs[tname]
@@ -478,7 +490,7 @@ def main():
                             "dump-missing-weight-is-error")
     # 4. thorough: seeded sampling beyond the bound
     if B.thorough:
-        for t in range(10):
+        for t in range(8):
             nchrom = rng.choice([1, 2, 3])
             n = rng.choice([7, 8, 9])
             cuts = sorted(rng.sample(range(1, n), nchrom - 1)) if nchrom > 1 else []
@@ -498,7 +510,7 @@ def main():
             ck = Checker(B, p, Ref(p), dict(random_cooler=t, seed=B.seed, n=n, symmetric_upper=symm, chrom_bins=sizes),
                          rng.choice([None, 1, 2, 5]))
             wins = []
-            for _ in range(250):
+            for _ in range(200):
                 i0, i1 = sorted((rng.randrange(n + 1), rng.randrange(n + 1)))
                 if rng.random() < 0.25:
                     j0, j1 = i0, i1
